@@ -58,15 +58,15 @@ MIN_HITS = {
     },
     'thorough': {
         'mon:concat-pcd': 25000, 'mon:concat-pfd': 25000, 'mon:full-pcd': 150000, 'mon:full-pfd': 150000,
-        'mon:bucket-pcd': 50000, 'mon:bucket-pfd': 50000, 'mon:repeat-padded': 40000, 'mon:reject': 7000,
+        'mon:bucket-pcd': 50000, 'mon:bucket-pfd': 50000, 'mon:repeat-padded': 40000, 'mon:reject': 6000,
         'reject:padded-preprocessor': 900, 'reject:padded-features': 900, 'reject:bsb-preprocessor': 700,
         'reject:bsb-features': 700, 'mon:multiset-shuffle': 25000, 'mon:repro-shuffle': 25000, 'mon:order-shuffle': 4000,
-        'mon:repeat-iter': 1000, 'mon:bsbshape': 20000, 'mon:multiset-bsb': 20000, 'mon:bsbrows': 20000,
+        'mon:repeat-iter': 900, 'mon:bsbshape': 20000, 'mon:multiset-bsb': 20000, 'mon:bsbrows': 20000,
         'mon:repro-bsb': 20000, 'mon:order-bsb': 3000, 'mon:fdstream': 18000, 'mon:repro-fdstream': 3000,
         'mon:clients': 4000, 'mon:repro-clients': 4000, 'mon:readonly': 35000,
         'padded:fits-in-buffer': 15000, 'padded:exactly-fills': 8000, 'padded:spans-several-batches': 20000,
-        'padded:leaves-exact-batch': 12000, 'padded:empty-client': 12000, 'padded:total=0': 200, 'repeat:copying': 150,
-        'repeat:container': 150, 'shuffle:buffer>len': 700, 'shuffle:buffer=len': 350, 'shuffle:buffer<len': 4000,
+        'padded:leaves-exact-batch': 12000, 'padded:empty-client': 12000, 'padded:total=0': 200, 'repeat:copying': 130,
+        'repeat:container': 130, 'shuffle:buffer>len': 700, 'shuffle:buffer=len': 350, 'shuffle:buffer<len': 4000,
         'shuffle:buffer=1': 350, 'iter:generator': 4000, 'iter:repeatable-gen': 4000,
     },
 }
